@@ -326,7 +326,8 @@ theorem consume_sim (F : Frame inpS inpW δ) (hops : OpsSim env.ops inpS inpW δ
     (hskip : 0 < skip → ∃ nd, sd.memchr = some nd ∧ SkipOk nd inpW mw0.c.nextPos skip)
     (hil : ms0.c.isLast = true → Closed inpS inpW δ) (heoi : eoi = false → ms0.c.isLast = false) :
     LockOut env.tbl fs inpW δ K eoi (consume env inpS sd ms0) (consume env inpW sd mw0) ∨
-    BreakOut env.tbl fs env.ops inpS inpW δ d ms0.x mw0 (consume env inpS sd ms0) := by
+    ((eoi = true → ¬ Closed inpS inpW δ) ∧
+      BreakOut env.tbl fs env.ops inpS inpW δ d ms0.x mw0 (consume env inpS sd ms0)) := by
   have hsm' : sm ≠ .inSeq := by
     rcases hsm with h | ⟨h, _⟩ <;> rw [h] <;> intro hh <;> cases hh
   have hnp := hrel.c.nextPos
@@ -368,7 +369,7 @@ theorem consume_sim (F : Frame inpS inpW δ) (hops : OpsSim env.ops inpS inpW δ
             cases he1 : eoi with
             | false => rw [heoi he1] at hh; cases hh
             | true => exact absurd ⟨he1, hil hh⟩ hcl
-        exact dispatch_end hops hcx1 hm1 hsm hdebt hl hbp
+        exact ⟨fun he1 hc => hcl ⟨he1, hc⟩, dispatch_end hops hcx1 hm1 hsm hdebt hl hbp⟩
   | some nd =>
     simp only
     have hns : hasSeq sd = false := cx.ok.mem (by rw [hmem]; rfl)
@@ -437,7 +438,7 @@ theorem consume_sim (F : Frame inpS inpW δ) (hops : OpsSim env.ops inpS inpW δ
               = skip + (inpS.drop ms0.c.nextPos).length by omega]
             exact hsk'⟩)
         rw [show ms0.c.nextPos + 1 + (inpS.drop ms0.c.nextPos).length = ms0.c.nextPos + (1 + (inpS.drop ms0.c.nextPos).length) by omega]
-        exact dispatch_end hops hcx1 hm1 (Or.inl rfl) hdebt hl hbp
+        exact ⟨fun he1 hc => hcl' ⟨he1, hc⟩, dispatch_end hops hcx1 hm1 (Or.inl rfl) hdebt hl hbp⟩
 
 end
 
@@ -456,7 +457,7 @@ theorem stateFn_sim (F : Frame inpS inpW δ) (hops : OpsSim env.ops inpS inpW δ
     (hb : BRel env.tbl fs inpW δ d skip ms mw) (hK : K d ms.x.sink mw.x.sink)
     (hil : ms.c.isLast = true → Closed inpS inpW δ) (heoi : eoi = false → ms.c.isLast = false) :
     LockOut env.tbl fs inpW δ K eoi (stateFn env inpS ms) (stateFn env inpW mw) ∨
-    (∃ (x0 : Ctx κ) (mw0 : M κ),
+    ((eoi = true → ¬ Closed inpS inpW δ) ∧ ∃ (x0 : Ctx κ) (mw0 : M κ),
       stateFn env inpW mw0 = stateFn env inpW mw ∧ K d x0.sink mw0.x.sink ∧ mw0.x.sim = x0.sim ∧
       x0.prevConsumed = mw0.x.prevConsumed + δ ∧
       BreakOut env.tbl fs env.ops inpS inpW δ d x0 mw0 (stateFn env inpS ms)) := by
@@ -491,9 +492,9 @@ theorem stateFn_sim (F : Frame inpS inpW δ) (hops : OpsSim env.ops inpS inpW δ
         intro h
         obtain ⟨nd, a, _, b⟩ := hs3 h
         exact ⟨nd, a, by rw [hnpw]; exact b⟩
-      rcases consume_sim F hops cx hrel hK' hsm' hs2 hskip' (by rw [hlast]; exact hil) (by rw [hlast]; exact heoi) with hl | hbo
+      rcases consume_sim F hops cx hrel hK' hsm' hs2 hskip' (by rw [hlast]; exact hil) (by rw [hlast]; exact heoi) with hl | ⟨hncl, hbo⟩
       · exact Or.inl hl
-      · refine Or.inr ⟨(preOf env inpS sd ms).1.x, (preOf env inpW sd mw).1, ?_, hK', hrel.sim, hrel.pc, hbo⟩
+      · refine Or.inr ⟨hncl, (preOf env inpS sd ms).1.x, (preOf env inpW sd mw).1, ?_, hK', hrel.sim, hrel.pc, hbo⟩
         rw [stateFn_eq env inpW (preOf env inpW sd mw).1]
         have hstw : (preOf env inpW sd mw).1.c.state = ms.c.state := by
           rw [hrel.c.state, cx.st_eq]
